@@ -183,7 +183,7 @@ static std::string run(const Sx& c) {
         VectorString aux(names.size() > 1 ? names.begin() + 1 : names.end(), names.end());
         ret = dbRegression(din, resp, aux, (int) P(0), P(1), alias ? nullptr : dout, nullptr, nc) == 0;
       }
-    } else if (id == 3) {     // CalcAnamTransform: sub 0 rawToGaussianByLocator, 1 gaussianToRaw..., 2 rawToFactor(nfact)
+    } else if (id == 3) {     // CalcAnamTransform: sub 0 rawToGaussianByLocator, 1 gaussianToRawByLocator, 2 rawToFactor(nfact)
       AnamHermite* an = AnamHermite::create(6);
       keep.emplace_back(an);
       bool fitted = an->fitFromLocator(din) == 0;
